@@ -1,6 +1,5 @@
 use nom::{
     branch::alt,
-    bytes::complete::tag,
     character::complete::{char, one_of},
     combinator::{map, opt},
     multi::{fold_many0, separated_list0},
@@ -61,7 +60,7 @@ pub fn bit_string_value(input: Input<'_>) -> ParserResult<'_, ASN1Value> {
 pub fn bit_string(input: Input<'_>) -> ParserResult<'_, ASN1Type> {
     map(
         preceded(
-            skip_ws_and_comments(tag(BIT_STRING)),
+            skip_ws_and_comments(keyword_pair(BIT_STRING)),
             pair(opt(distinguished_values), opt(constraints)),
         ),
         |m| ASN1Type::BitString(m.into()),
